@@ -48,12 +48,15 @@ type World struct {
 	States     map[string]struct{}
 	Trans      map[string]struct{}
 
-	strategy int
-	preemptP int
-	last     *simrt.Task
-	MaxSteps int
-	Horizon  time.Duration
-	NoStall  bool
+	strategy  int
+	preemptP  int
+	prio      map[*simrt.Task]int
+	pctPoints []int
+	pctLow    int
+	last      *simrt.Task
+	MaxSteps  int
+	Horizon   time.Duration
+	NoStall   bool
 
 	deadlines []time.Time
 	rootDone  bool
@@ -287,15 +290,23 @@ func (w *World) CallAsync(name string, fn func() error) *Call {
 // ---- the scheduler main loop ----
 
 func (w *World) pickStrategy() {
-	switch w.Draw(6, "strategy") {
+	switch w.Draw(7, "strategy") {
 	case 0, 1:
 		w.strategy, w.preemptP = 0, 12
 	case 2:
 		w.strategy, w.preemptP = 0, 4
 	case 3:
 		w.strategy, w.preemptP = 0, 40
-	default:
+	case 4, 5:
 		w.strategy = 1
+	default:
+		// PCT-style: random task priorities, the highest-priority runnable task
+		// always runs; at d drawn steps the running task drops to the bottom
+		w.strategy = 2
+		w.prio = map[*simrt.Task]int{}
+		for i, d := 0, 1+w.Draw(3, "pct-d"); i < d; i++ {
+			w.pctPoints = append(w.pctPoints, w.Draw(3000, "pct-point"))
+		}
 	}
 }
 
@@ -439,7 +450,24 @@ func (w *World) loop() {
 				}
 			}
 		}
-		if len(opts) > 1 {
+		if w.strategy == 2 {
+			for _, t := range opts {
+				if _, ok := w.prio[t]; !ok {
+					w.prio[t] = 1 + w.Draw(1<<16, "pct-prio")
+				}
+			}
+			for i, t := range opts {
+				if w.prio[t] > w.prio[opts[k]] || (w.prio[t] == w.prio[opts[k]] && t.ID < opts[k].ID) {
+					k = i
+				}
+			}
+			for _, pt := range w.pctPoints {
+				if pt == w.S.Steps {
+					w.pctLow--
+					w.prio[opts[k]] = w.pctLow
+				}
+			}
+		} else if len(opts) > 1 {
 			if w.strategy == 0 {
 				if w.Draw(w.preemptP, "preempt") == 1 {
 					k = w.Draw(len(opts), "pick")
